@@ -108,7 +108,9 @@ MSpec == MInit /\ [][MNext]_mvars
 (* C06 - clause numbers are the bits of the verdict mask *)
 C06Bad ==
   LET crash == CrashOK(disk, jr, FIds) IN
-  {i \in 1..9 :
+  {i \in 1..11 :
+     \/ i = 10 /\ lastFault.cls = "cdx" /\ ~FaultContentOK(lastFault.cls, lastFault.before, lastFault.after)
+     \/ i = 11 /\ lastFault.cls = "cdx" /\ ~FaultJournalOK(lastFault.cls, lastFault.j)
      \/ i = 9 /\ curf # 99 /\ ~sawFault /\ ~JournalNamesOK(jr, FIds, curf, bef)     \* JournalNamesPreAppendLength
      \/ i = 1 /\ ~sawFault /\ ~crash                                  \* CrashRecoverable (no I/O error involved)
      \/ i = 2 /\ sawFault /\ ~crash                                   \* CrashRecoverable during / after error handling
